@@ -154,6 +154,11 @@ def sf_sys_byteorder(ev):
     return VStr(z3.String('sys_byteorder'))
 
 
+def sf_nokw(ev, c):
+    """a **kargs dictionary without any key"""
+    return VBool(T.Conf.chas(c.z) == z3.K(T.S, z3.BoolVal(False)))
+
+
 def sf_conf_get(ev, c, key, default):
     has = z3.Select(T.Conf.chas(c.z), key.z)
     return VDyn(z3.If(has, z3.Select(T.Conf.cval(c.z), key.z), to_val(default)))
